@@ -1,7 +1,9 @@
 """C01 - matrix-vector products equal the mathematical product in every storage format.
 
-Inputs the generator deliberately avoids because the *property* fails on them on the unchanged tree (genuine FEAT
-defects, reproduced with the real containers at Q; /repo is not changed; full text: FINDINGS_C01.md / the C01 report):
+Inputs on which the *property* fails on the unchanged tree (genuine FEAT defects, reproduced with the real containers
+at Q; /repo is not changed). The random generator avoids them; F1 and F2 are executed and judged on every run in the
+second stream "known-edge" (signatures c01-edge:F1 / c01-edge:F2, open entries of KNOWN_FINDINGS.json -> KNOWN-FINDING
+lines; once fixed in FEAT the cases simply pass):
 
  F1  `dense apply 0 0 0 1/1 0 0 0`  (default-constructed 0x0 DenseMatrix, r and x empty; same for axpy / transposed and
      for a default-constructed SparseMatrixBanded): ABORT "Vector x and r must not share the same memory!" - the aliasing
@@ -10,7 +12,8 @@ defects, reproduced with the real containers at Q; /repo is not changed; full te
  F2  `bcsr 64 2 3 4 axpy 0 0 1 0 0 0 0/1 0 0 0`  (mixed overload r,x blocked / y scalar, empty y, i.e. rows()==0 resp.
      columns()==0 for the transposed form): uncaught std::out_of_range from `r.convert(y)` in the early-out
      (DenseVectorBlocked::convert does other.get_elements().at(0)).  Expected: returns with empty r.
- F3  (observation, not judged) the same overload's early-out leaves r a *shallow alias* of y
+ F3  (observation, not judged: the operands are unmodified when the call returns, which is all the property text
+     claims; the damage needs a *later* write through r) the same overload's early-out leaves r a *shallow alias* of y
      (`bcsr 64 2 2 4 axpy 1 1 2 0 1 1 0 4 1/1 1/1 1/1 1/1 0/1 2 1/1 1/1 2 5/1 5/1 0`: values correct, but
      r.elements<pod>() == y.elements() afterwards, a later r.scale(r,2) turns y into 10 10).
 """
@@ -419,7 +422,7 @@ def oracle(case, out):
                     if v != c.m.get((i, j), Fraction(0)):
                         return "operator()(%d,%d) = %s, stored arrays say %s" % (i, j, v, c.m.get((i, j), Fraction(0)))
             return None
-        if c.fmt == "banded" and c.tr and out.startswith("ABORT"):
+        if c.fmt == "banded" and c.tr and out == "ABORT:not-offered":
             return None     # the banded format does not offer the transposed product ("not implemented")
         if is_abnormal(out):
             return "%s %s on a valid input ended with %s" % (c.fmt, c.op, out)
@@ -509,7 +512,32 @@ def describe(case):
 
 
 def canon(out):
+    # "not implemented" (the format does not offer the operation) is a different outcome than an assertion abort
+    if out.startswith("ABORT:not_implemented") or out.startswith("ABORT:not-offered"):
+        return "ABORT:not-offered"
     return "ABORT" if out.startswith("ABORT") else out
+
+
+# known-edge stream: the exact failing inputs of the findings F1 / F2, judged by the same oracle on every run
+EDGE = {}
+for _op in ("apply", "applyT", "axpy", "axpyT"):
+    EDGE["dense %s 0 0 0 1/1 0 0 0" % _op] = "c01-edge:F1"
+    EDGE["banded 64 %s 0 0 0 0 1/1 0 0 0" % _op] = "c01-edge:F1"
+EDGE["dense axpy 0 0 0 2/1 0 0 1"] = "c01-edge:F1"                       # r aliasing y
+EDGE["bcsr 64 2 3 4 axpy 0 0 1 0 0 0 0/1 0 0 0"] = "c01-edge:F2"
+EDGE["bcsr 64 2 3 4 axpyT 0 0 1 0 0 0 0/1 0 0 0"] = "c01-edge:F2"
+EDGE["bcsr 32 2 2 4 axpy 0 2 1 0 0 0 3/1 4 1/1 1/1 1/1 1/1 0 0"] = "c01-edge:F2"      # 0 x 2 blocks, alpha general
+EDGE["bcsr 32 3 2 4 axpyT 2 0 3 0 0 0 0 0 3/1 6 1/1 1/1 1/1 1/1 1/1 1/1 0 0"] = "c01-edge:F2"
+
+
+def edge_signature(case, out, why):
+    return EDGE.get(case, "c01-edge:?")
+
+
+def edge_model_filter(case):
+    # the Lean model reproduces F1 (Dense.apply / Banded.apply return none for two empty vectors);
+    # it does not model the std::out_of_range of F2
+    return EDGE.get(case) == "c01-edge:F1"
 
 
 def signature(case, out, why):
@@ -535,6 +563,13 @@ def main(argv):
         cases = CORPUS + gen_cases(rng, 150000, [0, 1, 1, 2, 2, 3, 3, 5, 8, 13]) \
             + gen_cases(rng, 20000, [1, 2, 3, 5, 8, 13, 21, 34, 55]) \
             + gen_cases(rng, 600, [1, 3, 34, 89, 144, 200])
+    edge_cases = list(EDGE.keys())
+    if args.replay:     # a replayed edge case is judged in its own stream (signature -> KNOWN-FINDING), others in "apply"
+        edge_cases = [c for c in cases if c in EDGE]
+        cases = [c for c in cases if c not in EDGE]
+    st_edge = vlib.Stream("known-edge", edge_cases, [binary], vlib.driver_cmd(PROP),
+                          oracle=oracle, describe=describe, signature=edge_signature, canon=canon,
+                          model_filter=edge_model_filter)
     st = vlib.Stream("apply", cases, [binary], vlib.driver_cmd(PROP), oracle=oracle, nontrivial=nontrivial,
                      describe=describe, signature=signature, canon=canon)
     stats_rule = ("CSR (scalar and blocked vectors), CSCR, BCSR (6 block shapes x 5 vector-kind overloads), banded "
@@ -542,10 +577,11 @@ def main(argv):
                   "transposed forms, 32/64-bit indices, r aliasing y, alpha in {0, +-1, below eps, eps, general}; "
                   "non-trivial = at least one stored entry and one of {empty row, rectangular, alpha not in {0,1}, "
                   "r aliases y, transposed, block > 1}")
-    rc = vlib.run_pipeline(PROP, args.tier, args.seed, lean, [st], t0, assumptions=[
+    rc = vlib.run_pipeline(PROP, args.tier, args.seed, lean, [st, st_edge], t0, assumptions=[
         "Index modelled as unbounded Nat (no 32/64-bit overflow at the sizes generated)",
         "exact rational arithmetic at Q: the rounding clause of the property is exercised only through the "
         "|alpha| < eps early-out (float conformance T3 not run)",
-        "DenseMatrix / SparseMatrixBanded 0x0 and the BCSR mixed overload with an empty y are excluded (FINDINGS_C01.md)"],
+        "DenseMatrix / SparseMatrixBanded 0x0 and the BCSR mixed overload with an empty y are not generated randomly; "
+        "their exact failing inputs are executed and judged in stream known-edge (KNOWN_FINDINGS c01-edge:F1/F2)"],
         extra_cov={"rule": stats_rule})
     return rc
